@@ -56,13 +56,16 @@ def gen_labels(rng, n):
     return lab
 
 
+BOOST = int(os.environ.get("VERIF_BOOST", "1"))
+
+
 def run(rng, tier, res=None, want=("prim", "fit", "semi")):
     load_opfython()
     from opfython.core.subgraph import Subgraph
     from opfython.models.supervised import SupervisedOPF
     from opfython.models.semi_supervised import SemiSupervisedOPF
     res = res or Result("forest")
-    scale = 1 if tier == "quick" else 12
+    scale = BOOST if tier == "quick" else 12
     nmax = 12 if tier == "quick" else 22
     lines, obs, metas = [], [], []
 
@@ -107,6 +110,11 @@ def run(rng, tier, res=None, want=("prim", "fit", "semi")):
             viol("C02", O.check_prototypes(n, lambda a, b: M[idx[a]][idx[b]], lab,
                                            [nd[i].status == 1 for i in range(n)], [nd[i].pred for i in range(n)]), meta)
 
+    try:
+        import json as _json
+        corpus = _json.load(open(os.path.join(VERIF, "corpus", "fit.json")))["cases"] if "fit" in want else []
+    except Exception:
+        corpus = []
     # ---------------- fit (+predict), supervised and semi ----------------
     for case in range((450 * scale) if ("fit" in want or "semi" in want) else 0):
         semi = ("semi" in want) and (("fit" not in want) or rng.random() < 0.4)
@@ -133,8 +141,13 @@ def run(rng, tier, res=None, want=("prim", "fit", "semi")):
         # queries: anywhere in the universe, including training positions (query == training sample)
         Iq = [rng.randrange(U) if rng.random() < 0.5 else rng.choice(idx) for _ in range(nq)]
         X = np.zeros((nLab, 1)); Y = np.array(lab, dtype=int)
+        cc = corpus[case] if (case < len(corpus) and not semi) else None
+        if cc is not None:
+            # corpus case (witness of a past seeded change): fixed features, euclidean metric
+            lab = list(cc["Y"]); nLab = len(lab); nU = 0; n = nLab; nq = len(cc["Q"]); U = n + nq
+            Y = np.array(lab, dtype=int); kind = "corpus"; res.hit("corpus_case")
         try:
-            feature_mode = rng.random() < 0.3
+            feature_mode = (rng.random() < 0.3) or cc is not None
             if feature_mode:
                 # real metric evaluated on features (incl. asymmetric ones: argument orientation matters)
                 import opfython.math.distance as _dist
@@ -147,6 +160,9 @@ def run(rng, tier, res=None, want=("prim", "fit", "semi")):
                 pts = [[float(rng.randint(0, 3)) if lattice else rng.choice([rng.uniform(0.2, 4.0), rng.uniform(0.2, 4.0), 0.0])
                         for _ in range(dd)] for _ in range(U)]
                 P_ = np.array(pts)
+                if cc is not None:
+                    metric = "euclidean"; fn = _dist.DISTANCES[metric]
+                    P_ = np.array([[float(v) for v in r] for r in (cc["X"] + cc["Q"])]); dd = P_.shape[1]
                 I = None; idx = list(range(n))
                 Iq = [n + t if n + t < U else rng.randrange(U) for t in range(nq)]
                 if nq and rng.random() < 0.5:
